@@ -826,6 +826,9 @@ class TLSConnection(TLSRecordLayer):
             extensions.append(ext)
 
         groups = []
+        # TLS 1.3 needs supported_groups whatever the TLS 1.2 key exchanges
+        offers_tls13 = next((i for i in settings.versions if i > (3, 3)),
+                            None) is not None
         # Send the ECC extensions only if we advertise ECC ciphers
         if next((cipher for cipher in cipherSuites \
                 if cipher in CipherSuite.ecdhAllSuites), None) is not None:
@@ -833,9 +836,12 @@ class TLSConnection(TLSRecordLayer):
             if settings.ec_point_formats:
                 extensions.append(ECPointFormatsExtension().\
                                 create(settings.ec_point_formats))
+        elif offers_tls13:
+            groups.extend(self._curveNamesToList(settings))
         # Advertise FFDHE groups if we have DHE ciphers
-        if next((cipher for cipher in cipherSuites
-                 if cipher in CipherSuite.dhAllSuites), None) is not None:
+        if offers_tls13 or next((cipher for cipher in cipherSuites
+                                 if cipher in CipherSuite.dhAllSuites),
+                                None) is not None:
             groups.extend(self._groupNamesToList(settings))
         # Send the extension only if it will be non empty
         if groups:
